@@ -2,8 +2,10 @@ package ledger
 
 import (
 	"bytes"
+	"fmt"
 	"time"
 
+	"github.com/nspcc-dev/neo-go/pkg/consensus"
 	"github.com/nspcc-dev/neo-go/pkg/core/block"
 	"github.com/nspcc-dev/neo-go/pkg/core/mempool"
 	"github.com/nspcc-dev/neo-go/pkg/core/native/nativehashes"
@@ -464,6 +466,80 @@ func (s *netSim) checkReencode(msg *network.Message, raw []byte) {
 	if viol != nil {
 		r.violate(viol)
 	}
+}
+
+// checkConsensusPayload: the dBFT message carried in the Data of a consensus-category Extensible. What an honest
+// validator sent and the transport delivered unaltered must decode, and re-encoding the decoded message must give
+// exactly the bytes that were signed; whatever decodes at all (altered bytes included) must re-encode to something that
+// decodes to the same bytes again.
+func (s *netSim) checkConsensusPayload(e *payload.Extensible, altered bool) {
+	if e.Category != payload.ConsensusCategory {
+		return
+	}
+	r := s.r
+	srih := r.plan.Proto.StateRootInHeader
+	magic := r.P.BC.GetConfig().Magic
+	enc := func(p *consensus.Payload) []byte {
+		p.Data = nil // forces the message to be serialised again
+		w := nio.NewBufBinWriter()
+		p.EncodeBinary(w.BinWriter)
+		if w.Err != nil {
+			return nil
+		}
+		return append([]byte{}, p.Data...)
+	}
+	dec := func(ext *payload.Extensible) (*consensus.Payload, error) {
+		w := nio.NewBufBinWriter()
+		ext.EncodeBinary(w.BinWriter)
+		p := consensus.NewPayload(magic, srih)
+		br := nio.NewBinReaderFromBuf(w.Bytes())
+		p.DecodeBinary(br)
+		return p, br.Err
+	}
+	var viol *sim.Violation
+	if pv := sim.Recover(func() {
+		orig := append([]byte{}, e.Data...)
+		p, err := dec(e)
+		if err != nil {
+			if !altered {
+				viol = sim.Violatef("c17-consensus-payload", "c17-consensus-payload/decode-fails", "a consensus payload (type %#x, %d bytes) sent by a validator and delivered unaltered does not decode: %v", first(orig), len(orig), err)
+			} else {
+				r.out.Probes["consensus_payload_altered_rejected"]++
+			}
+			return
+		}
+		d2 := enc(p)
+		if !altered && !bytes.Equal(orig, d2) {
+			viol = sim.Violatef("c17-consensus-payload", "c17-consensus-payload/reencode-differs", "a consensus payload (type %#x) sent by a validator and delivered unaltered decodes, but the decoded message serialises to %d bytes that differ from the %d signed ones", first(orig), len(d2), len(orig))
+			return
+		}
+		e2 := *e
+		e2.Data = d2
+		p2, err := dec(&e2)
+		if err != nil {
+			viol = sim.Violatef("c17-consensus-payload", "c17-consensus-payload/unstable", "the re-encoding of a decoded consensus payload (type %#x) does not decode: %v", first(orig), err)
+			return
+		}
+		if d3 := enc(p2); !bytes.Equal(d2, d3) {
+			viol = sim.Violatef("c17-consensus-payload", "c17-consensus-payload/unstable", "a decoded consensus payload (type %#x) re-encodes to %d bytes, and what that decodes to re-encodes to %d different bytes", first(orig), len(d2), len(d3))
+			return
+		}
+		r.out.Probes[fmt.Sprintf("consensus_payload_checked/%#x", first(orig))]++
+	}); pv != nil {
+		pv.Msg = "decoding / re-encoding a consensus payload panicked: " + pv.Msg
+		r.violate(pv)
+		return
+	}
+	if viol != nil {
+		r.violate(viol)
+	}
+}
+
+func first(b []byte) byte {
+	if len(b) == 0 {
+		return 0xff
+	}
+	return b[0]
 }
 
 // checkTxPaths: hash and size of a transaction do not depend on the path by which it arrived.
